@@ -23,7 +23,7 @@ pub fn spec() -> Spec {
 		 bytes, boundary sizes and 5-40 KiB multipart values; reference counts 1..4; values a function of the key whenever \
 		 source or destination is preimage / reference counted), one variant with a zero-salt uniform column holding 70-400 \
 		 keys that share their first 16 bits so that the index grows (16 -> 17.. bits), optionally closed with an unfinished \
-		 reindex, thorough additionally ~20k hashed small values; then parity_db::migrate to a destination whose hash columns \
+		 reindex, and one variant with 10.3-12k (thorough 20-30k) small values in the first column, more than one migration commit batch (10240 operations); then parity_db::migrate to a destination whose hash columns \
 		 differ in any subset of {compression, preimage, ref_counted} (uniform unchanged), with forced / automatic column \
 		 selection and overwrite false / true. The first column walks the full 9 x 9 grid of (preimage/rc class x compression) \
 		 source/destination pairs x {forced, automatic} x {copy, overwrite} deterministically (324 cases, counter \
@@ -46,6 +46,9 @@ pub fn spec() -> Spec {
 	.require("multipart_values_migrated", 50)
 	.require("src_counts_gt1_keys", 200)
 	.require("src_index_grown", 10)
+	.require("src_more_keys_than_a_commit_batch", 10)
+	.require("src_closed_with_unfinished_reindex", 10)
+	.require("shared_node_deref_probes", 10)
 	.require("unselected_columns_checked", 50)
 	.require("grid_cells_x_selection_x_overwrite", 324)
 	.assume("destination options keep `uniform` (the key-hashing scheme) and the salt of the source; btree / multitree columns are never selected (migrate documents hash -> hash only)")
@@ -86,7 +89,7 @@ struct Plan {
 	grid: usize,
 }
 
-fn plan_for(rng: &mut Rng, variant: u64, thorough: bool) -> Plan {
+fn plan_for(rng: &mut Rng, variant: u64) -> Plan {
 	// deterministic walk for the first column
 	let grid = (variant % 81) as usize;
 	let (s, d) = (grid / 9, grid % 9);
@@ -172,7 +175,7 @@ fn plan_for(rng: &mut Rng, variant: u64, thorough: bool) -> Plan {
 		growth,
 		unfinished_reindex,
 		big: rng.chance(2, 3),
-		many: thorough && rng.chance(1, 12),
+		many: rng.chance(1, 12),
 		grid,
 	}
 }
@@ -212,7 +215,7 @@ fn drain_no_reindex(db: &Db) -> parity_db::Result<()> {
 	Ok(())
 }
 
-fn build_source(rng: &mut Rng, dir: &std::path::Path, p: &Plan, txs: usize) -> Result<Source, String> {
+fn build_source(rng: &mut Rng, dir: &std::path::Path, p: &Plan, txs: usize, thorough: bool) -> Result<Source, String> {
 	let mut thresholds = HashMap::new();
 	for c in 0..p.src.len() {
 		if rng.chance(1, 3) {
@@ -268,10 +271,11 @@ fn build_source(rng: &mut Rng, dir: &std::path::Path, p: &Plan, txs: usize) -> R
 		}
 	}
 	if p.many {
-		// ~20k hashed small values: natural index growth
+		// more keys than one migration commit batch holds (10240 operations); thorough: ~20-30k
 		let c = 0usize;
 		let mut items = vec![];
-		for i in 0..20_000u32 {
+		let n_many = if thorough { rng.range(20_000, 30_000) } else { rng.range(10_300, 12_000) } as u32;
+		for i in 0..n_many {
 			let mut k = rng.bytes(if p.src[c].uniform { 32 } else { 12 });
 			k[..4].copy_from_slice(&i.to_le_bytes());
 			let v = if content.fn_of_key[c] { pv::gen::value_for_key(&k, false) } else { rng.bytes_in(0, 40) };
@@ -436,7 +440,7 @@ fn migrate_case(ctx: &Ctx, rep: &mut Report, case_seed: u64, variant: u64, grid_
 	let verbose = ctx.replay.is_some() || ctx.verbose;
 	let thorough = ctx.tier == pv::Tier::Thorough;
 	let mut rng = Rng::new(case_seed);
-	let p = plan_for(&mut rng, variant, thorough);
+	let p = plan_for(&mut rng, variant);
 	let txs = rng.range(6, if thorough { 60 } else { 24 }) as usize;
 	let desc = format!(
 		"C20 seed={} variant={} src=[{}] dst=[{}] sel={} force={:?} overwrite={} growth={:?} unfinished_reindex={} big={} many={}",
@@ -453,15 +457,12 @@ fn migrate_case(ctx: &Ctx, rep: &mut Report, case_seed: u64, variant: u64, grid_
 		p.many
 	);
 	ctx.mark(&desc);
-	if verbose {
-		eprintln!("[case] {}", desc);
-	}
 	let replay = J::obj().set("case_seed", J::i(case_seed)).set("variant", J::i(variant)).set("desc", J::s(desc.clone()));
 	rep.cases += 1;
 	let scr = Scratch::new("c20");
 	let from = scr.sub("src");
 	let to_path = scr.sub("dst");
-	let src = match catch(|| build_source(&mut rng, &from, &p, txs)) {
+	let src = match catch(|| build_source(&mut rng, &from, &p, txs, thorough)) {
 		Ok(Ok(s)) => s,
 		Ok(Err(e)) => {
 			rep.inconclusive(format!("C20: cannot build the source: {} ({})", e, desc));
@@ -519,7 +520,7 @@ fn migrate_case(ctx: &Ctx, rep: &mut Report, case_seed: u64, variant: u64, grid_
 		}
 	}
 	if p.many {
-		rep.count("src_20k_keys", 1);
+		rep.count("src_more_keys_than_a_commit_batch", 1);
 		rep.max("src_index_bits", src.index_bits[0].unwrap_or(0) as u64);
 	}
 	if src.pending_reindex {
@@ -564,12 +565,17 @@ fn migrate_case(ctx: &Ctx, rep: &mut Report, case_seed: u64, variant: u64, grid_
 	// ---- unselected columns: same files (migration without overwrite copies them)
 	if !p.overwrite {
 		let res = hashes(&result_dir);
+		// when the source had an unfinished reindex, opening it (and the copy) legitimately merges
+		// older index files into the current one: index files are then compared by content only
 		for c in 0..p.src.len() {
 			if selected.contains(&c) {
 				continue
 			}
 			evals += 1;
 			for f in column_files(&before, c) {
+				if src.pending_reindex && f.starts_with("index_") {
+					continue
+				}
 				match res.get(&f) {
 					None => violations.push((
 						format!("{};failure=unselected_file_not_copied;file={};col={}", sigbase, crate::util::file_class(&f), show(&p.src[c])),
